@@ -363,3 +363,119 @@ Proof.
   intros a b Ha Hb. cbn in Ha, Hb.
   repeat match goal with H : _ \/ _ |- _ => destruct H as [H|H] end; try contradiction; subst; vm_compute; intros E; try reflexivity; discriminate.
 Qed.
+
+(* ---- source-translation links, persistence: ModelEvaluation.save_h5 / load_h5 (Generated/SrcEvalIO.v, configurations
+   C20_EVIO_* of harness/src_functions.py), with the helpers encode_string_array / decode_string_array and the property
+   sample_names translated too.  The translations work on the raw HDF5 content [evraw] (datasets by name, last part of
+   Model/Metrics.v); [evraw_close] is the representation map to the model's file (with the stored predictions.shape[1]). ---- *)
+From Batchie Require Import Generated.SrcEvalIO Proofs.C20SourceIO.
+
+(* what the translated save_h5 has written, read back by name, is the model's file of e, its 2-d predictions carrying
+   shape[1] = ncols.  All evaluations, all ncols. *)
+Theorem C20_model_is_source_save_h5 : forall (ncols : nat) (e : evaluation),
+  (dor w <- src_ev_save_h5 ncols e; evraw_close w) = Ok (ncols, ev_save e).
+Proof. exact src_ev_save_h5_is_model. Qed.
+Print Assumptions C20_model_is_source_save_h5.
+
+(* on EVERY raw file that holds the four datasets, the translated load_h5 is the model's ev_load when the stored shape[1]
+   of the predictions is the number of stored chain ids, and the constructor's ValueError otherwise.  No hypothesis on the
+   content. *)
+Theorem C20_model_is_source_load_h5 : forall (w : evraw) (ncols : nat) (f : eval_file),
+  evraw_close w = Ok (ncols, f) ->
+  src_ev_load_h5 w = if Nat.eqb (length (snd (fst f))) ncols then ev_load f else Err E_VALUE.
+Proof. exact src_ev_load_h5_is_model. Qed.
+Print Assumptions C20_model_is_source_load_h5.
+
+(* the codec helpers as translated are the identity on every 1-d string array, with or without elements *)
+Theorem C20_model_is_source_string_codec :
+  (forall a : list pyname, src_ev_encode_string_array a = Ok a) /\ (forall a : list bstr, src_ev_decode_string_array a = Ok a).
+Proof. exact (conj src_ev_encode_string_array_is_identity src_ev_decode_string_array_is_identity). Qed.
+Print Assumptions C20_model_is_source_string_codec.
+
+(* hence C20_eval_save_load is a theorem about the translated source: for every evaluation the constructor builds
+   (m = predictions.shape[1]), the translated load_h5 applied to what the translated save_h5 wrote returns it unchanged *)
+Theorem C20_source_eval_save_load : forall m P o ch nm e,
+  mk_eval m P o ch nm = Ok e ->
+  (dor w <- src_ev_save_h5 m e; src_ev_load_h5 w) = Ok e.
+Proof. exact src_ev_round_trip. Qed.
+Print Assumptions C20_source_eval_save_load.
+
+(* not vacuous: the evaluation with 0 experiments and 2 posterior samples (the witness of the defect repaired in /repo
+   6d95451), a square 2 x 2 one, and a file whose stored shape disagrees with its chain ids *)
+Example C20_source_eval_io_examples :
+  (dor e <- mk_eval 2 [] [] [0; 0]%Z []; dor w <- src_ev_save_h5 2 e; src_ev_load_h5 w)
+  = Ok {| ev_preds := []; ev_obs := []; ev_chains := [0; 0]%Z; ev_names := [] |}
+  /\ (dor e <- mk_eval 2 [[q 1 1; q 0 1]; [q 1 2; q 1 4]] [q 1 2; q 1 1] [0; 1]%Z [[97%Z]; [98%Z]];
+      dor w <- src_ev_save_h5 2 e; src_ev_load_h5 w)
+     = Ok {| ev_preds := [[q 1 1; q 0 1]; [q 1 2; q 1 4]]; ev_obs := [q 1 2; q 1 1]; ev_chains := [0; 1]%Z;
+             ev_names := [[97%Z]; [98%Z]] |}
+  /\ src_ev_load_h5 (evraw_of_file 3 ([], [], [0; 0]%Z, [])) = Err E_VALUE
+  /\ src_ev_load_h5 [] = Err 30%Z.
+Proof. repeat split; vm_compute; reflexivity. Qed.
+
+(* ---- source-translation link: models/main.py correlation_matrix (Generated/SrcCorr.v, configurations C20_CORR /
+   C20_PREDICT_AVG_NAN of harness/src_functions.py; vocabulary: last part of Model/Corr.v).  In the translation a float is
+   option Qc (None = NaN) and every numpy operator is lifted to it; the screen is (tm, sm, arity, rows) with tm the
+   mapping rows ((name, dose), id) as in the link of generate_full_combinatoric_space, rows the (sample id, sample name)
+   pairs of the experiments; the thetas are the model's function f. ---- *)
+From Batchie Require Import Generated.SrcCorr Proofs.C20SourceCorr.
+
+(* predict_viability_avg, translated once more with NaN as a value, on the model's thetas and a screen with one sample id
+   and one id row per experiment (true of every Screen): entry by entry the model's avg_pred; without thetas 0 / 0 = NaN *)
+Theorem C20_model_is_source_predict_viability_avg_nan : forall (f : nat -> Z -> list Z -> Qc) (n : nat) (sp : list Z * list (list Z)),
+  length (fst sp) = length (snd sp) ->
+  src_predict_viability_avg_nan (length (fst sp)) (thetas_on f n sp)
+  = Ok (map (fun st => match n with O => None | S _ => Some (avg_pred f n (fst st) (snd st)) end) (combine (fst sp) (snd sp))).
+Proof. exact src_predict_avg_nan_on. Qed.
+Print Assumptions C20_model_is_source_predict_viability_avg_nan.
+
+(* the WHOLE function correlation_matrix = the model, wrapped as the DataFrame (index, columns, values) with the sample
+   names on both axes.  Hypotheses: the sqrt oracle vanishes exactly at 0 on non-negative arguments (true of the real and
+   of the IEEE square root; the model tests the sum of squares, numpy divides by its root), and - as for
+   generate_full_combinatoric_space - key is injective on the mapping's (name, dose) pairs.  All screens, all thetas. *)
+Theorem C20_model_is_source_correlation_matrix : forall (orc : oracle),
+  (forall x : Qc, (0 <= x)%Qc -> (orc ORC_SQRT x = 0%Qc <-> x = 0%Qc)) ->
+  forall (f : nat -> Z -> list Z -> Qc) (key : Z * Z -> Z) (tm : tmap3),
+  (forall a b, In a (map fst tm) -> In b (map fst tm) -> key a = key b -> a = b) ->
+  forall (sm : list (Z * Z)) (arity nthetas : nat) (rows : list (Z * Z)),
+  src_correlation_matrix orc f tm sm arity nthetas rows
+  = dor r <- correlation_matrix orc f (key_rows key tm) sm arity nthetas rows; Ok (mk_frame (snd r) (fst r) (fst r)).
+Proof. exact src_correlation_matrix_is_model. Qed.
+Print Assumptions C20_model_is_source_correlation_matrix.
+
+(* hence C20_corr_symmetric about the translated source; and the frame's columns are its index *)
+Theorem C20_source_corr_symmetric : forall (orc : oracle),
+  (forall x : Qc, (0 <= x)%Qc -> (orc ORC_SQRT x = 0%Qc <-> x = 0%Qc)) ->
+  forall (f : nat -> Z -> list Z -> Qc) (key : Z * Z -> Z) (tm : tmap3),
+  (forall a b, In a (map fst tm) -> In b (map fst tm) -> key a = key b -> a = b) ->
+  forall sm arity nthetas rows index columns M i j,
+  src_correlation_matrix orc f tm sm arity nthetas rows = Ok (index, columns, M) ->
+  columns = index /\ mat_get M i j = mat_get M j i.
+Proof. exact src_correlation_matrix_symmetric. Qed.
+Print Assumptions C20_source_corr_symmetric.
+
+(* not vacuous: an oracle with the hypothesis (sqrt 0 = 0, sqrt(1/4) = 1/2, 1 elsewhere); two samples whose averages
+   differ at one combination: [[1, -1], [-1, 1]] with the names 5, 6 on both axes; no theta: all NaN; one sample: NaN;
+   no experiment: np.stack raises *)
+Definition ex_orc2 : oracle := fun _ x => if qeqb x 0 then 0%Qc else if qeqb x (q 1 4) then q 1 2 else 1%Qc.
+Definition ex_f (th : nat) (s : Z) (ids : list Z) : Qc :=
+  match ids with [a; b] => if ((s =? 0) && (a =? -1) && (b =? 0))%Z then 1%Qc else 0%Qc | _ => 0%Qc end.
+Definition show_frame (r : result corr_frame) : sexp :=
+  of_result (fun fr => SL [of_list SZ (fst (fst fr)); of_list SZ (snd (fst fr)); of_list (of_list (of_option of_Qc)) (snd fr)]) r.
+Example C20_source_corr_examples :
+  (forall x : Qc, (0 <= x)%Qc -> (ex_orc2 ORC_SQRT x = 0%Qc <-> x = 0%Qc))
+  /\ show_frame (src_correlation_matrix ex_orc2 ex_f ex_tm [(5, 0); (6, 1)]%Z 2 3 [(0, 5); (1, 6); (0, 5)]%Z)
+     = SL [SZ 0; SL [SL [SZ 5; SZ 6]; SL [SZ 5; SZ 6];
+                     SL [SL [SL [SL [SZ 1; SZ 1]]; SL [SL [SZ (-1); SZ 1]]]; SL [SL [SL [SZ (-1); SZ 1]]; SL [SL [SZ 1; SZ 1]]]]]]
+  /\ show_frame (src_correlation_matrix ex_orc2 ex_f ex_tm [(5, 0); (6, 1)]%Z 2 0 [(0, 5); (1, 6); (0, 5)]%Z)
+     = SL [SZ 0; SL [SL [SZ 5; SZ 6]; SL [SZ 5; SZ 6]; SL [SL [SL []; SL []]; SL [SL []; SL []]]]]
+  /\ show_frame (src_correlation_matrix ex_orc2 ex_f ex_tm [(5, 0); (6, 1)]%Z 2 3 [(1, 6)]%Z)
+     = SL [SZ 0; SL [SL [SZ 6]; SL [SZ 6]; SL [SL [SL []]]]]
+  /\ src_correlation_matrix ex_orc2 ex_f ex_tm [(5, 0); (6, 1)]%Z 2 3 [] = Err E_VALUE.
+Proof.
+  split; [|repeat split; vm_compute; reflexivity].
+  intros x _. unfold ex_orc2. destruct (Qc_eq_dec x 0) as [->|N].
+  - split; reflexivity.
+  - unfold qeqb. destruct (Qc_eq_dec x 0) as [E|_]; [contradiction|].
+    split; [|intros E; contradiction]. destruct (Qc_eq_dec x (q 1 4)); intros H; apply (f_equal this) in H; vm_compute in H; discriminate.
+Qed.
